@@ -116,59 +116,85 @@ def value_from_model(model, heap, v, depth=0):
 CVC5 = "/usr/bin/cvc5"
 
 
+_prefer_cvc5 = [False]
+
+
 def solve_obligation(ob, budget_s, tmpdir, tag):
-    """Portfolio: z3 (python API, hard timeout) then cvc5 on the SMT-LIB dump."""
+    """Portfolio: z3 (python API, watchdog) and cvc5 (CLI on the SMT-LIB dump).  z3 alone decides most
+    obligations in milliseconds; once an obligation of a function needed cvc5, cvc5 is started alongside z3
+    for the following ones."""
+    if z3.is_true(z3.simplify(ob.goal)):
+        return "unsat", "trivial", 0.0, None, None
     s = z3.Solver()
-    s.set("timeout", int(budget_s * 1000))
     s.add(*bm.AXIOMS)
     s.add(*ob.pc)
     s.add(z3.Not(ob.goal))
-    smt2 = None
     t0 = time.time()
-    if z3.is_true(z3.simplify(ob.goal)):
-        return "unsat", "trivial", 0.0, None, None
-    quick = min(3.0, budget_s)
-    s.set("timeout", int(quick * 1000))
-    r = hard_check(s, quick)
-    dt = time.time() - t0
+    smt2 = None
+    proc = None
+
+    def start_cvc5():
+        nonlocal smt2
+        smt2 = os.path.join(tmpdir, f"{tag}.smt2")
+        with open(smt2, "w") as fh:
+            fh.write("(set-logic ALL)\n" + s.to_smt2())
+        return subprocess.Popen([CVC5, "--strings-exp", f"--tlimit={int(budget_s * 1000)}", smt2],
+                                stdout=subprocess.PIPE, stderr=subprocess.DEVNULL, text=True)
+
+    def wait_cvc5(proc, limit):
+        try:
+            out, _ = proc.communicate(timeout=limit)
+        except subprocess.TimeoutExpired:
+            proc.kill()
+            proc.wait()
+            out = "timeout"
+        return (out or "").strip().splitlines()[0] if (out or "").strip() else ""
+
+    def z3_try(seconds):
+        sx = z3.Solver()
+        sx.set("timeout", int(seconds * 1000))
+        sx.add(*bm.AXIOMS)
+        sx.add(*ob.pc)
+        sx.add(z3.Not(ob.goal))
+        r = hard_check(sx, seconds)
+        return r, sx
+
+    # attempt 0: fewer assumptions (quantified ones dropped) - sound for 'unsat', and often much easier
+    from .engine import _has_quantifier
+
+    ground = [a for a in list(bm.AXIOMS) + list(ob.pc) if not _has_quantifier(a)]
+    if len(ground) < len(bm.AXIOMS) + len(ob.pc) and not _has_quantifier(ob.goal):
+        sg = z3.Solver()
+        sg.set("timeout", 1500)
+        sg.add(*ground)
+        sg.add(z3.Not(ob.goal))
+        if hard_check(sg, 1.5) == z3.unsat:
+            return "unsat", "z3-5.1", time.time() - t0, None, None
+    first = ""
+    if _prefer_cvc5[0]:
+        first = wait_cvc5(start_cvc5(), min(budget_s, 8.0))
+        if first == "unsat":
+            return "unsat", "cvc5-1.0.3", time.time() - t0, None, smt2
+    r, sx = z3_try(min(3.0, budget_s))
     if r == z3.unsat:
-        return "unsat", "z3-5.1", dt, None, None
+        return "unsat", "z3-5.1", time.time() - t0, None, smt2
     if r == z3.sat:
-        return "sat", "z3-5.1", dt, s.model(), None
-    # unknown after a short z3 attempt: second solver family, then z3 again with the full budget
-    smt2 = os.path.join(tmpdir, f"{tag}.smt2")
-    s2 = z3.Solver()
-    s2.add(*bm.AXIOMS)
-    s2.add(*ob.pc)
-    s2.add(z3.Not(ob.goal))
-    with open(smt2, "w") as fh:
-        fh.write("(set-logic ALL)\n" + s2.to_smt2())
-    t1 = time.time()
-    try:
-        out = subprocess.run([CVC5, "--strings-exp", f"--tlimit={int(budget_s * 1000)}", smt2],
-                             capture_output=True, text=True, timeout=budget_s + 5).stdout.strip()
-    except subprocess.TimeoutExpired:
-        out = "timeout"
-    dt2 = time.time() - t1
-    first = out.splitlines()[0] if out else ""
-    if first == "unsat":
-        return "unsat", "cvc5-1.0.3", dt + dt2, None, smt2
-    t2 = time.time()
-    s3 = z3.Solver()
-    s3.set("timeout", int(budget_s * 1000))
-    s3.add(*bm.AXIOMS)
-    s3.add(*ob.pc)
-    s3.add(z3.Not(ob.goal))
-    r3 = hard_check(s3, budget_s)
-    dt3 = time.time() - t2
+        return "sat", "z3-5.1", time.time() - t0, sx.model(), smt2
+    if not _prefer_cvc5[0]:
+        first = wait_cvc5(start_cvc5(), budget_s + 5)
+        if first == "unsat":
+            _prefer_cvc5[0] = True
+            return "unsat", "cvc5-1.0.3", time.time() - t0, None, smt2
+    r3, s3 = z3_try(budget_s)
+    dt = time.time() - t0
     if r3 == z3.unsat:
-        return "unsat", "z3-5.1", dt + dt2 + dt3, None, smt2
+        return "unsat", "z3-5.1", dt, None, smt2
     if r3 == z3.sat:
-        return "sat", "z3-5.1", dt + dt2 + dt3, s3.model(), smt2
+        return "sat", "z3-5.1", dt, s3.model(), smt2
     if first == "sat":
         # a cvc5 model is not mapped back: report refuted without a counterexample
-        return "sat", "cvc5-1.0.3", dt + dt2 + dt3, None, smt2
-    return "unknown", "z3-5.1+cvc5-1.0.3", dt + dt2 + dt3, None, smt2
+        return "sat", "cvc5-1.0.3", dt, None, smt2
+    return "unknown", "z3-5.1+cvc5-1.0.3", dt, None, smt2
 
 
 def confirm_unsat(ob, budget_s, tmpdir, tag):
@@ -195,6 +221,7 @@ def worker(task):
     try:
         db = build_db()
         c = db.get(key)
+        _prefer_cvc5[0] = False
         if mutation is not None:
             _apply_mutation(mutation)
         if extra_requires:
@@ -394,7 +421,7 @@ def main(argv=None):
         # closure over assumed callees: verified in this run as well (they carry the property)
         todo, seen, results = list(roots), set(), {}
         nproc = min(16, os.cpu_count() or 4)
-        with mp.Pool(nproc) as pool:
+        with mp.Pool(nproc, maxtasksperchild=1) as pool:
             while todo:
                 batch = [k for k in dict.fromkeys(todo) if k not in seen]
                 seen.update(batch)
